@@ -23,7 +23,7 @@ def run_checks(patch, checks):
             rc, out = sh('./check.py %s --tier quick' % c, cwd='/verif', timeout=3600)
             viol = [l for l in out.split('\n') if l.startswith('VIOLATION')]
             msgs = [l for l in out.split('\n') if l.startswith(c + ':')]
-            results[c] = {'rc': rc, 'violations': viol[:3], 'first_message': (msgs[0] if msgs else '')[:300],
+            results[c] = {'rc': rc, 'violations': ([v for v in viol if 'no-failing-input-found' not in v][:2] + viol)[:4], 'first_message': (msgs[0] if msgs else '')[:300],
                           'wall_s': round(time.time() - t0, 1)}
             print(c, 'rc=%d' % rc, viol[:1])
     finally:
@@ -107,7 +107,7 @@ def main():
                 t0 = time.time()
                 rc, out = sh('./check.py %s --tier quick' % c, cwd='/verif', timeout=3600)
                 viol = [l for l in out.split('\n') if l.startswith('VIOLATION')]
-                results[c] = {'rc': rc, 'violations': viol[:3], 'first_message': next((l for l in out.split('\n') if l.startswith(c + ':') or l.startswith(c + ' ')), '')[:300],
+                results[c] = {'rc': rc, 'violations': ([v for v in viol if 'no-failing-input-found' not in v][:2] + viol)[:4], 'first_message': next((l for l in out.split('\n') if l.startswith(c + ':') or l.startswith(c + ' ')), '')[:300],
                               'wall_s': round(time.time() - t0, 1)}
                 print(c, 'rc=%d' % rc, viol[:1])
         finally:
